@@ -392,3 +392,18 @@ Theorem c09_kept_ca_refuted :
   ca_ders (life_kept 0 [] [run_of cfg_a false] (run_of cfg_b true)) = [11] /\
   ca_ders (life_kept 0 [] [run_of cfg_a false] (run_of cfg_a false)) = [1].
 Proof. exact kept_ca_refuted. Qed.
+
+(* every published key is a pre-listed one or has a CA certificate (for every configuration and injection list) *)
+Theorem c09_pubkeys_listed_or_loaded : forall c l,
+  let s := inject_all c (sealed_init c) l in
+  forall k, In k (pubkeys s) -> In k (extra_pubkeys c) \/ In k (ca_ders s).
+Proof. exact pubkeys_listed_or_loaded. Qed.
+
+(* the predicate the case file evaluates on OBSERVED runs (a key of /public/sshca without CA certificate, or the
+   requested X.509 certificate not issued) is never true of the model's own observation, for every history and
+   disk, when keymaster_public_keys_filename lists nothing (as in the life cases) *)
+Theorem c09_life_predicate_sound : forall d before last,
+  extra_pubkeys (cy_cfg last) = [] ->
+  let s := life d before last in
+  life_case_violates (is_some (signer s), pubkeys s, ca_ders s, is_some (signer s)) = false.
+Proof. exact life_predicate_sound. Qed.
